@@ -39,6 +39,9 @@ class Ctx:
         extra = list(extra)
         if simulate:
             extra += ["-simulate", simulate]
+        # the time limits only guard against a runaway model; on a machine shared with other jobs a model that
+        # normally takes minutes must not be declared failed (thorough models run for up to an hour on a quiet machine)
+        timeout = timeout * (5 if self.tier == "thorough" else 2)
         res = run_tlc(mode, module + ".tla", cfg, workers=workers, timeout=timeout,
                       coverage=coverage, extra=extra)
         os.unlink(cfg)
@@ -77,7 +80,7 @@ class Ctx:
         self.cov["models"].append(entry)
         return res
 
-    def witness(self, module, cfg_text, invs, label=None, timeout=300):
+    def witness(self, module, cfg_text, invs, label=None, timeout=900):
         """vacuity guard: the model must reach a state violating each negated
         witness formula in `invs` (i.e. the interesting case really occurs).
         cfg_text lists these formulas as INVARIANTs; one TLC run per formula
@@ -293,7 +296,7 @@ def main(argv):
         if time.time() - t_start > limit:
             raise MachineryError("check exceeded its overall time limit of %d s" % limit)
         signal.alarm(period)
-    limit = int(os.environ.get("VERIF_WATCHDOG_S", "3000" if a.tier == "quick" else "40000"))
+    limit = int(os.environ.get("VERIF_WATCHDOG_S", "7200" if a.tier == "quick" else "80000"))
     try:
         signal.signal(signal.SIGALRM, on_alarm)
         signal.alarm(period)
